@@ -1,7 +1,7 @@
 /-
 C17 — cached size/hash fields of the Transaction and Extensible objects (Model/Wire/Obj.lean): when the caches
-agree with the encoding (`Coherent`), which methods keep them so, and the two that do not (a decode into a used
-object keeps the old size / the old hash).
+agree with the encoding (`Coherent`) and that every method keeps them so (the two stale-cache defects found by this
+check are fixed in /repo: 67279e2, 264f88d; the old rules are kept as `decodeOld` for the regression examples).
 -/
 import NeoModel.Model.Wire.Obj
 import NeoModel.Proofs.WireIdentity
@@ -49,16 +49,25 @@ theorem TxObj.coherent_queries (H : Bytes → Bytes) (cv : Curve) (o : TxObj) (h
     · exact ⟨h1, h2⟩
     · exact ⟨h1, Or.inr rfl⟩
 
-/-- decoding into an object whose size cache is unset (a fresh object, a copy) gives a coherent object with both
-caches filled: size = length of the encoding, hash = hash of the hashed fields. -/
-theorem TxObj.decode_unset (H : Bytes → Bytes) (cv : Curve) (o o' : TxObj) (b : Bytes) (hz : o.size = 0)
+/-- decoding into ANY object — fresh, copied or used — gives a coherent object with both caches filled: size = length
+of the encoding, hash = hash of the hashed fields. -/
+theorem TxObj.decode_fills (H : Bytes → Bytes) (cv : Curve) (o o' : TxObj) (b : Bytes)
     (hd : o.decode H cv b = some o') :
     o'.size = ((txC cv).enc o'.v).length ∧ o'.hashed = true ∧ o'.hash = txHash H cv o'.v ∧ o'.Coherent H cv := by
   unfold TxObj.decode at hd
   split at hd
   · simp at hd
   · simp at hd; subst hd
-    simp [hz, TxObj.Coherent]
+    simp [TxObj.Coherent]
+
+/-- an Extensible decoded into — used or not — answers `Hash()` with the hash of its new content. -/
+theorem ExtObj.decode_hash (H : Bytes → Bytes) (o o' : ExtObj) (b : Bytes) (hd : o.decode b = some o') :
+    (o'.hashOf H).2 = extensibleHash H o'.v := by
+  unfold ExtObj.decode at hd
+  split at hd
+  · simp at hd
+  · simp at hd; subst hd
+    rfl
 
 /-- `NewTransactionFromBytes` on the canonical encoding of a well-formed transaction gives a coherent object. -/
 theorem TxObj.fromBytes_canonical (H : Bytes → Bytes) (cv : Curve) (hs : cv.Sound) (t : Tx) (hw : (txC cv).wf t) :
